@@ -56,10 +56,24 @@ def _mypy(t):
 
 
 def decode(sel, cur):
+    """Selector layout: n, preference, return hint, number of documented results, their types - then the parameters (so
+    that the partitions can fix the leading selectors)."""
     n = 1 + rd(sel, cur, MAXP)
+    pref = [TypeSourcePreference.CODE, TypeSourcePreference.DOCSTRING][rd(sel, cur, 2)]
+    # UNRES_*: a return hint that is written but that mypy cannot resolve (-> "pd.DataFrame" without import: Any of kind
+    # special_form, the hint is then `Any`; -> xml.nosuch.Thing of a submodule that cannot be found: Any from_unimported_type
+    # without import name, the hint is then the unknown type)
+    ret_hint = [None, T1, T2, (T1, T2), (T2, T1), UNRES_FORM, UNRES_IMPORT][rd(sel, cur, 7)]
+    plain_only = isinstance(ret_hint, tuple) and not THOROUGH  # quick tier: tuple return hints with the plainest parameter list only
+    if plain_only and n > 1:
+        raise OutOfRange
+    nres = rd(sel, cur, (2 if isinstance(ret_hint, tuple) else MAXR) + 1)
+    res_docs = [[None, T1, T2][rd(sel, cur, 3)] for _ in range(nres)]
     params = []
     for i in range(n):
-        if i == 0 or THOROUGH:
+        if plain_only:
+            hint, doc, doc_default, code_default = None, None, "", False
+        elif i == 0 or THOROUGH:
             hint = [None, T1, T2][rd(sel, cur, 3)]
             doc = [None, T1, T2][rd(sel, cur, 3)]
             doc_default = ["", "5"][rd(sel, cur, 2)] if doc is not None else ""
@@ -69,15 +83,6 @@ def decode(sel, cur):
             doc = [None, T2][rd(sel, cur, 2)]
             doc_default, code_default = "", False
         params.append((f"p{i}", hint, doc, doc_default, code_default))
-    # UNRES_*: a return hint that is written but that mypy cannot resolve (-> "pd.DataFrame" without import: Any of kind
-    # special_form, the hint is then `Any`; -> xml.nosuch.Thing of a submodule that cannot be found: Any from_unimported_type
-    # without import name, the hint is then the unknown type)
-    ret_hint = [None, T1, T2, (T1, T2), (T2, T1), UNRES_FORM, UNRES_IMPORT][rd(sel, cur, 7)]
-    if isinstance(ret_hint, tuple) and not THOROUGH and (n > 1 or params[0][1] is not None or params[0][2] is not None):
-        raise OutOfRange  # quick tier: tuple return hints are combined with the plainest parameter list only
-    nres = rd(sel, cur, (2 if isinstance(ret_hint, tuple) else MAXR) + 1)
-    res_docs = [[None, T1, T2][rd(sel, cur, 3)] for _ in range(nres)]
-    pref = [TypeSourcePreference.CODE, TypeSourcePreference.DOCSTRING][rd(sel, cur, 2)]
     return params, ret_hint, res_docs, pref
 
 
@@ -157,6 +162,7 @@ def reconcile(sel: List[int]) -> bool:
         if ret_hint in (UNRES_FORM, UNRES_IMPORT):
             ret_hint = ANY if ret_hint == UNRES_FORM else UnknownType()
         code_results = list(ret_hint) if isinstance(ret_hint, tuple) else ([ret_hint] if ret_hint is not None else [])
+        expected = []  # (position in the documentation/hint, wanted type, known from the docstring only)
         for i in range(max(len(code_results), len(res_docs))):
             c = code_results[i] if i < len(code_results) else None
             d = res_docs[i] if i < len(res_docs) else None
@@ -165,14 +171,19 @@ def reconcile(sel: List[int]) -> bool:
                 conflicts += c != d
             else:
                 want = c if c is not None else d
-            if want is None:
-                continue
-            if i >= len(fw.results):
-                labels.append("result-missing")
-            elif fw.results[i].type != want:
-                labels.append("result-type-not-per-preference-table")
-            elif c is None and fw.results[i].name != f"result_{i + 1}":
-                labels.append("docstring-only-result-not-named-result_n")
+            if want is not None:
+                expected.append((i, want, c is None))
+        # a documented result without any type yields no result; the others keep their order
+        if len(fw.results) < len(expected):
+            labels.append("result-missing")
+        elif len(fw.results) > len(expected):
+            labels.append("result-without-source")
+        else:
+            for r, (i, want, doc_only) in zip(fw.results, expected):
+                if r.type != want:
+                    labels.append("result-type-not-per-preference-table")
+                elif doc_only and r.name != f"result_{i + 1}":
+                    labels.append("docstring-only-result-not-named-result_n")
         # (d) a warning exactly for every real conflict
         if len(log_w) != conflicts:
             labels.append("warnings-differ-from-conflicts")
